@@ -228,7 +228,11 @@ class VizierServicer(vizier_service_pb2_grpc.VizierServiceServicer):
       context: Optional[grpc.ServicerContext] = None,
   ) -> empty_pb2.Empty:
     """Deletes a Study."""
-    self.datastore.delete_study(request.name)
+    # Wait for calls in flight on this study (same lock order as SuggestTrials),
+    # so that none of them finds the study gone half-way through.
+    with self._operation_lock[request.name]:
+      with self._study_name_to_lock[request.name]:
+        self.datastore.delete_study(request.name)
     return empty_pb2.Empty()
 
   def SetStudyState(
